@@ -3,6 +3,7 @@ package rules
 import (
 	"fmt"
 	"go/token"
+	"go/types"
 	"strings"
 
 	"coapcheck/internal/core"
@@ -67,17 +68,7 @@ func runC16(e *Env) {
 					e.R.OkTrivial("C16.R1", construct, e.pos(a.Instr), "entry under construction")
 					continue
 				}
-				ok := false
-				for _, use := range core.FuncValueUses(f) {
-					if c, isCall := use.(*ssa.Call); isCall {
-						switch core.CalleeName(c) {
-						case "pkg/sync.Map.LoadOrStoreWithFunc", "pkg/sync.Map.ReplaceWithFunc", "pkg/sync.Map.StoreWithFunc":
-							if strings.HasSuffix(tableOf(c), ".endpointQueues") {
-								ok = true
-							}
-						}
-					}
-				}
+				ok := runsUnderQueueLock(f, 0)
 				e.R.Check(ok, "C16.R1", construct, e.pos(a.Instr), "inside a callback the queue map runs under its write lock", "queue state is accessed outside the map's locked callbacks: counter and waiter list can be corrupted by concurrent requests")
 			}
 		}
@@ -190,7 +181,7 @@ func runC16(e *Env) {
 	if e.want("C16.R3") && acq != nil {
 		ok, why := false, "no increment of the in-flight counter found in the on-load callback"
 		for _, c := range core.CallsNamed(acq, "pkg/sync.Map.LoadOrStoreWithFunc") {
-			onLoad := core.FuncArgClosure(core.Arg(c, 2))
+			onLoad, _ := core.MethodBehind(core.FuncArgClosure(core.Arg(c, 2))) // a literal, or the method behind a method value
 			if onLoad == nil {
 				continue
 			}
@@ -243,9 +234,10 @@ func runC16(e *Env) {
 	if e.want("C16.R3") && rel != nil {
 		// decrement only on the no-waiter edge
 		ok := false
-		for _, c := range core.CallsNamed(rel, "pkg/sync.Map.ReplaceWithFunc") {
-			cb := core.FuncArgClosure(core.Arg(c, 2))
-			if cb == nil {
+		// the callbacks of releaseEndpoint that run under the map's lock (handed to ReplaceWithFunc directly, as a method value, or
+		// through an update helper that calls them from its own locked callback)
+		for _, cb := range core.WithAnon(rel) {
+			if cb == rel || !runsUnderQueueLock(cb, 0) {
 				continue
 			}
 			core.Instrs(cb, func(in ssa.Instruction) {
@@ -404,13 +396,39 @@ func c16FIFO(e *Env, acq, rel, can *ssa.Function) {
 
 func c16Cancel(e *Env, acq, can *ssa.Function) {
 	rule := "C16.R5"
+	var ch *ssa.MakeChan
 	if acq != nil {
-		var ch *ssa.MakeChan
 		core.Instrs(acq, func(in ssa.Instruction) {
 			if mc, ok := in.(*ssa.MakeChan); ok {
 				ch = mc
 			}
 		})
+	}
+	// the cleanup written into the waiting function itself: the waiter's own channel is the one made there
+	inlined := can != nil && can == acq
+	// releaseEndpoint only when the waiter was not found in the queue
+	guardedRelease := func(f *ssa.Function) (n int, ok bool) {
+		for _, c := range core.CallsNamed(f, lpr+".releaseEndpoint") {
+			n++
+			_, g := core.GuardedBy(c.(ssa.Instruction), func(cond ssa.Value) core.CondMatch {
+				if ld, isLd := cond.(*ssa.UnOp); isLd && ld.Op == token.MUL {
+					if a := core.CellOf(ld.X); a != nil && a.Comment == "queued" {
+						return core.CondMatch{Match: true, Branch: false}
+					}
+					if _, fl, isF := core.FieldOf(ld.X); isF && fl == "queued" { // the flag kept in the waiter object
+						return core.CondMatch{Match: true, Branch: false}
+					}
+				}
+				return core.CondMatch{}
+			})
+			// the flag must be set exactly where the waiter is removed from the queue
+			if g {
+				ok = true
+			}
+		}
+		return n, ok
+	}
+	if acq != nil && !inlined {
 		// the select's ctx.Done arm
 		ok, why := false, "the context-done arm does not hand the waiter's own channel to its cleanup"
 		core.Instrs(acq, func(in ssa.Instruction) {
@@ -424,8 +442,21 @@ func c16Cancel(e *Env, acq, can *ssa.Function) {
 			}
 			passes := false
 			for i := 0; i < core.NArgs(c); i++ {
-				if core.Resolve(core.Arg(c, i)) == ssa.Value(ch) {
+				a := core.Resolve(core.Arg(c, i))
+				if a == ssa.Value(ch) {
 					passes = true
+				}
+				// … or the per-request waiter object that holds the channel
+				if al, isAl := a.(*ssa.Alloc); isAl {
+					for _, u := range core.Referrers(al) {
+						if fa, isFA := u.(*ssa.FieldAddr); isFA {
+							for _, uu := range core.Referrers(fa) {
+								if st, isSt := uu.(*ssa.Store); isSt && st.Addr == ssa.Value(fa) && core.Resolve(st.Val) == ssa.Value(ch) {
+									passes = true
+								}
+							}
+						}
+					}
 				}
 			}
 			if passes {
@@ -436,14 +467,39 @@ func c16Cancel(e *Env, acq, can *ssa.Function) {
 		})
 		e.R.Check(ok, rule, lpr+".acquireEndpoint:cancel-passes-own-channel", e.fpos(acq), "on cancellation the waiter's own channel identifies it to the cleanup", why)
 	}
-	if can != nil && len(can.Params) == 3 {
-		own := can.Params[2]
+	var own ssa.Value
+	switch {
+	case inlined && ch != nil:
+		own = ch
+	case can != nil && !inlined && len(can.Params) == 3:
+		own = can.Params[2]
+	}
+	if can != nil && own != nil {
 		cmpFound := false
+		// the waiter's own channel: the value itself, or the channel field of the waiter object handed in
+		isOwn := func(v ssa.Value) bool {
+			r := core.Resolve(v)
+			if r == own {
+				return true
+			}
+			if ld, isLd := r.(*ssa.UnOp); isLd && ld.Op == token.MUL {
+				if fa, isFA := ld.X.(*ssa.FieldAddr); isFA {
+					if _, isChan := ld.Type().Underlying().(*types.Chan); isChan {
+						base := core.Resolve(fa.X)
+						if rb := core.ReceiverBinding(base); rb != nil {
+							base = core.Resolve(rb)
+						}
+						return base == own
+					}
+				}
+			}
+			return false
+		}
 		for _, g := range core.WithAnon(can) {
 			core.Instrs(g, func(in ssa.Instruction) {
 				if c, isC := in.(*ssa.Call); isC && strings.HasSuffix(core.CalleeName(c), "slices.Index") && len(c.Call.Args) == 2 {
 					// slices.Index(list, own): linear search by ==
-					if isFieldLoadNamed(c.Call.Args[0], "orderedRequest") && core.Resolve(c.Call.Args[1]) == ssa.Value(own) {
+					if isFieldLoadNamed(c.Call.Args[0], "orderedRequest") && core.Resolve(c.Call.Args[1]) == own {
 						cmpFound = true
 					}
 				}
@@ -451,28 +507,21 @@ func c16Cancel(e *Env, acq, can *ssa.Function) {
 				if !ok || (b.Op != token.EQL && b.Op != token.NEQ) {
 					return
 				}
-				if core.Resolve(b.X) == ssa.Value(own) || core.Resolve(b.Y) == ssa.Value(own) {
+				if isOwn(b.X) || isOwn(b.Y) {
 					cmpFound = true
 				}
 			})
 		}
-		e.R.Check(cmpFound, rule, lpr+".cancelEndpoint:searches-own-channel", e.fpos(can), "the queue is searched for the waiter's own channel", "the cleanup does not look for the cancelling waiter's own channel in the queue")
-		// releaseEndpoint only when not queued
-		ok := false
-		for _, c := range core.CallsNamed(can, lpr+".releaseEndpoint") {
-			_, g := core.GuardedBy(c.(ssa.Instruction), func(cond ssa.Value) core.CondMatch {
-				if ld, isLd := cond.(*ssa.UnOp); isLd && ld.Op == token.MUL {
-					if a := core.CellOf(ld.X); a != nil && a.Comment == "queued" {
-						return core.CondMatch{Match: true, Branch: false}
-					}
-				}
-				return core.CondMatch{}
-			})
-			// the flag must be set exactly where the waiter is removed from the queue
-			if g {
-				ok = true
+		if inlined {
+			nRel, okRel := guardedRelease(acq)
+			why := "the context-done arm does not look for the waiter's own channel in the queue"
+			if nRel > 0 && !okRel {
+				why = "the context-done arm calls releaseEndpoint(key), which cannot tell a still-queued waiter from an admitted one: cancelling a queued waiter admits another request while the slot holder is still running"
 			}
+			e.R.Check(cmpFound, rule, lpr+".acquireEndpoint:cancel-passes-own-channel", e.fpos(acq), "on cancellation the waiter's own channel identifies it to the cleanup (written into the waiting function)", why)
 		}
+		e.R.Check(cmpFound, rule, lpr+".cancelEndpoint:searches-own-channel", e.fpos(can), "the queue is searched for the waiter's own channel", "the cleanup does not look for the cancelling waiter's own channel in the queue")
+		_, ok := guardedRelease(can)
 		e.R.Check(ok, rule, lpr+".cancelEndpoint:release-only-if-admitted", e.fpos(can), "a slot is given back only when the waiter was not found in the queue (it had been admitted)", "a cancelled waiter that is still queued gives away a slot it does not own")
 	}
 }
@@ -591,4 +640,121 @@ func c16FindWindow(f *ssa.Function) bool {
 		}
 	})
 	return ok
+}
+
+// runsUnderQueueLock: f is a callback the endpoint-queue map runs under its write lock – handed to one of the map's …WithFunc
+// operations directly, or to a helper of the package whose only use of that parameter is to call it from such a callback; or f is
+// a helper called only from such callbacks.
+func runsUnderQueueLock(f *ssa.Function, depth int) bool {
+	if depth > 3 {
+		return false
+	}
+	uses := core.FuncValueUses(f)
+	if len(uses) == 0 {
+		// an absorbed helper (e.g. a method of the queue): every call site is in a locked callback
+		sites := core.SitesOf(f)
+		if len(sites) == 0 {
+			return false
+		}
+		for _, s := range sites {
+			if !runsUnderQueueLock(s.Parent(), depth+1) {
+				return false
+			}
+		}
+		return true
+	}
+	for _, use := range uses {
+		if _, isMk := use.(*ssa.MakeClosure); isMk {
+			continue // the creation of the function value itself
+		}
+		c, isCall := use.(*ssa.Call)
+		if !isCall {
+			return false
+		}
+		switch core.CalleeName(c) {
+		case "pkg/sync.Map.LoadOrStoreWithFunc", "pkg/sync.Map.ReplaceWithFunc", "pkg/sync.Map.StoreWithFunc":
+			if strings.HasSuffix(tableOf(c), ".endpointQueues") {
+				continue
+			}
+			return false
+		}
+		h := core.StaticFn(c)
+		if h == nil || len(h.Blocks) == 0 || h.Pkg != f.Pkg || c.Call.IsInvoke() {
+			return false
+		}
+		// which parameter receives f?
+		okParam := false
+		for i, a := range c.Call.Args {
+			mk, isMk := a.(*ssa.MakeClosure)
+			isF := false
+			if isMk {
+				if w, ok := mk.Fn.(*ssa.Function); ok {
+					t, _ := core.MethodBehind(w)
+					isF = w == f || t == f
+				}
+			} else if fv, ok := a.(*ssa.Function); ok {
+				isF = fv == f
+			}
+			if !isF || i >= len(h.Params) {
+				continue
+			}
+			if paramOnlyCalledUnderQueueLock(h, h.Params[i], depth) {
+				okParam = true
+			} else {
+				return false
+			}
+		}
+		if !okParam {
+			return false
+		}
+	}
+	return true
+}
+
+// paramOnlyCalledUnderQueueLock: every use of the function-typed parameter p of h is a call of it made inside a locked callback.
+func paramOnlyCalledUnderQueueLock(h *ssa.Function, p *ssa.Parameter, depth int) bool {
+	n := 0
+	var check func(v ssa.Value, in *ssa.Function) bool
+	check = func(v ssa.Value, in *ssa.Function) bool {
+		for _, u := range core.Referrers(v) {
+			switch x := u.(type) {
+			case *ssa.Call:
+				if x.Call.Value != v {
+					return false
+				}
+				n++
+				if !runsUnderQueueLock(in, depth+1) {
+					return false
+				}
+			case *ssa.MakeClosure:
+				// captured by a closure of h: look at the free variable there
+				g, _ := x.Fn.(*ssa.Function)
+				for bi, b := range x.Bindings {
+					if b == v && g != nil && bi < len(g.FreeVars) {
+						if !check(g.FreeVars[bi], g) {
+							return false
+						}
+					}
+				}
+			case *ssa.Store:
+				// spilled to a variable cell (captured by reference): every other use of the cell is a load whose value is checked
+				if x.Val != v {
+					continue // a store INTO the cell v points to – nothing else is ever stored there? be strict:
+				}
+				cell, isCell := x.Addr.(*ssa.Alloc)
+				if !isCell || !check(cell, in) {
+					return false
+				}
+			case *ssa.UnOp:
+				if x.Op != token.MUL || !check(x, in) {
+					return false
+				}
+			case *ssa.DebugRef:
+			default:
+				return false
+			}
+		}
+		return true
+	}
+	return check(p, h) && n > 0
 }
